@@ -12,12 +12,16 @@ produces cross-references. Oracle:
     aligned, misaligned and shared payloads alike;
   * every offset in method / field / string / class cross-references is an instruction offset of the method the
     reference is attributed to.
+Histories (cfg_common): a share of the cases goes on after the first analysis - the same parsed DEX object is analysed
+again ('history:reanalyse:*' buckets: the clauses must hold for the blocks of every analysis, judged by identity), or a
+try-free generated method gets another layout installed through EncodedMethod.set_instructions() and is analysed again
+('history:set-instructions:*' buckets: judged against the model of the new layout).
 """
 from vf.checks import cfg_common as K
 
 PROPERTY = 'C40'
 LEVEL = 'exploration'
-RULE = ('generated: batches of 1-6 abstract methods, each with >= 1 payload-bearing instruction; half of the strategies place payloads unaligned / on odd code units; shared payloads; xref-producing instructions; shipped: as in C10 with create_xref(). non-trivial = the method has >= 1 fill-array-data / packed-switch / sparse-switch instruction; distinct = (code bytes, tries)')
+RULE = ('generated: batches of 1-6 abstract methods, each with >= 1 payload-bearing instruction; half of the strategies place payloads unaligned / on odd code units; shared payloads; xref-producing instructions; shipped: as in C10 with create_xref(). non-trivial = the method has >= 1 fill-array-data / packed-switch / sparse-switch instruction; distinct = (code bytes, tries); histories (share of the cases, label history:*): 1/4 of the generated batches and every shipped DEX <= 100 kB analyse the SAME parsed DEX object again (second Analysis(d), one more MethodAnalysis(d, m)) and apply the oracle to the blocks of that later analysis; another 1/4 of the generated batches re-assemble each try-free method in another layout (1-4 nops in front, a payload moved), install its disassembly with EncodedMethod.set_instructions() and judge a new MethodAnalysis against the model of the new layout')
 ASSUMPTIONS = [
     'vf/gen/dalvik_spec.py, vf/gen/asm.py, vf/gen/dexgen.py and vf/gen/cfggen.py produce well-formed code items (typed from the Dalvik/DEX specifications; the length table tiles every shipped code item)',
     'reference semantics in vf/model/cfg.py: branch and switch-target offsets are relative to the branching instruction (code units), switch falls through, goto/return*/throw do not; a try covers the instructions whose address lies in [start_addr, start_addr+insn_count)',
